@@ -480,11 +480,16 @@ func boolToBV(c *Term, w int) *Term {
 // ---------------------------------------------------------------------------
 // Evaluation under a model.
 
-type model map[string]uint64
+type model struct {
+	bv  map[string]uint64
+	str map[string]string // values of Str-sorted inputs: a literal of the program or a fresh string
+}
+
+func newModel() *model { return &model{bv: map[string]uint64{}, str: map[string]string{}} }
 
 // eval computes t under m. ok is false if t contains an uninterpreted
 // function or a Str-sorted subterm (those need the solver).
-func (m model) eval(t *Term, memo map[*Term]uint64) (v uint64, ok bool) {
+func (m *model) eval(t *Term, memo map[*Term]uint64) (v uint64, ok bool) {
 	if t.op == OpConst {
 		return t.k, true
 	}
@@ -496,7 +501,7 @@ func (m model) eval(t *Term, memo map[*Term]uint64) (v uint64, ok bool) {
 		if t.w == wStr {
 			return 0, false
 		}
-		v = m[t.name] & mask1(t.w)
+		v = m.bv[t.name] & mask1(t.w)
 	case OpUF, OpStrLit:
 		return 0, false
 	case OpBVNot:
